@@ -8,6 +8,7 @@
 (*   trs          abstract transitions (vf/ampl.py), in reaction order      *)
 (*   spin_groups  group_by_spin_projection: groups as lists of 1-based      *)
 (*                transition indices, in the order returned                 *)
+(*                (expected: classes of "which id carries which projection")*)
 (*   topo_groups  group_by_topology: the same, in dictionary order          *)
 (*   outer        get_outer_state_ids(reaction)                             *)
 (*   prefactors   get_prefactor(transition), per transition                 *)
@@ -30,12 +31,15 @@ Tr(i) == Rec.trs[i]
 \* outer edges: the root edge and the leaves
 OuterIx(tr) == { i \in DOMAIN tr.edges : ToSet(tr.edges[i].set) = Leaves(tr) \/ Len(tr.edges[i].set) = 1 }
 IsInitial(tr, i) == ToSet(tr.edges[i].set) = Leaves(tr) /\ Cardinality(Leaves(tr)) > 1
-\* the coherence key: the bag of (particle, projection) of the initial and of the final states
-\* (a bag: which of two identical particles carries which projection is not observable)
-PairBag(tr, ix) == LET ps == { <<tr.edges[i].part, tr.edges[i].hel2>> : i \in ix } IN
-  [ p \in ps |-> Cardinality({ i \in ix : <<tr.edges[i].part, tr.edges[i].hel2>> = p }) ]
-SpinKey(tr) == << PairBag(tr, { i \in OuterIx(tr) : IsInitial(tr, i) }),
-                  PairBag(tr, { i \in OuterIx(tr) : ~ IsInitial(tr, i) }) >>
+\* the coherence key: which particle (id) carries which projection, for the initial and the final states.  Transitions
+\* with the same key describe the same final state and interfere; transitions that give two identical particles
+\* exchanged projections describe different final states.  (ampform keys by the *sorted list* of (name, projection),
+\* which is the same partition unless identical particles with spin carry unequal projections - known finding of C02.)
+OuterSeq(tr, ix) == LET ids == SortedSeq({ tr.edges[i].eid : i \in ix })
+                        E(e) == CHOOSE i \in ix : tr.edges[i].eid = e IN
+                    [ n \in DOMAIN ids |-> <<ids[n], tr.edges[E(ids[n])].part, tr.edges[E(ids[n])].hel2>> ]
+SpinKey(tr) == << OuterSeq(tr, { i \in OuterIx(tr) : IsInitial(tr, i) }),
+                  OuterSeq(tr, { i \in OuterIx(tr) : ~ IsInitial(tr, i) }) >>
 \* a topology object: the tree together with the numbering of its edges
 TopoKey(tr) == { <<tr.edges[i].eid, ToSet(tr.edges[i].set)>> : i \in DOMAIN tr.edges }
 
@@ -70,7 +74,7 @@ HelInfoOk(h) ==
 
 Step ==
   /\ l <= Len(Log)
-  /\ Clause("spin-projection-groups-are-the-classes-of-the-outer-state-bag", IsPartitionBy(Rec.spin_groups, SpinKey), Rec.spin_groups)
+  /\ Clause("spin-projection-groups-are-the-classes-of-the-outer-states", IsPartitionBy(Rec.spin_groups, SpinKey), Rec.spin_groups)
   /\ Clause("spin-projection-groups-in-order-of-appearance", InOrder(Rec.spin_groups), Rec.spin_groups)
   /\ Clause("topology-groups-are-the-classes-of-the-topology-object", IsPartitionBy(Rec.topo_groups, TopoKey), Rec.topo_groups)
   /\ Clause("topology-groups-in-order-of-appearance", InOrder(Rec.topo_groups), Rec.topo_groups)
